@@ -356,7 +356,9 @@ class Candidate:  # pylint: disable=too-many-instance-attributes
         plat_score = -1
         for plat in self.platforms:
             if plat == "any":
-                plat_score = 0
+                # A maximum like the other branches: the platforms are a set,
+                # the result must not depend on the order they come in.
+                plat_score = max(plat_score, 0)
                 continue
             try:
                 plat = LEGACY_ALIASES.get(plat, plat)
